@@ -42,6 +42,8 @@ CONSTANTS
   DEV_ImplicitDot, DEV_NoRsetAfterDataReject, DEV_ContinueAfterRsetFail,
   DEV_LeakOnDialError, DEV_QuitFailureLeavesConn, DEV_NoDeadlineInDial,
   DEV_NoopBeforeDeadline, DEV_WindowStaysOpen, DEV_FallbackInClear, DEV_DialKeepsConnection, DEV_WindowNeedsDebug,
+  VARIANTS,      \* environment variants the specification is indifferent to ("" = none): ctxdl, ctxcancel, latereply, customport; and "sslflag"
+  MINR,          \* fewest recipients of a message (0: a message without recipients is refused locally)
   LATEDEBUG,     \* subset of BOOLEAN: debug logging is switched on only while the AUTH exchange is in flight (before its first response)
   REDIAL         \* subset of BOOLEAN: the Client first dials with TLS policy none, then the policy of the scenario is set and it dials again
 
@@ -92,7 +94,7 @@ Lost(c) == c \in {"drop", "stall", "wfail", "xclose"}   \* the connection is unu
 ErrOf(reason, ch, k, rc) ==
   [haserr |-> TRUE, reason |-> reason, temp |-> ch.c = "t4",
    code |-> IF ch.c \in {"t4", "p5"} THEN CodeOf(ch.c, k) ELSE 0,   \* only 4yz / 5yz codes are reported
-   esc |-> IF "ENHANCEDSTATUSCODES" \in cl.ext /\ ch.sh = "lead" THEN EscOf(ch.c, k) ELSE "",
+   esc |-> IF "ENHANCEDSTATUSCODES" \in cl.ext /\ ch.sh \in {"lead", "multi"} THEN EscOf(ch.c, k) ELSE "",
    rcpts |-> rc]
 LocalErr(reason) == [NoErr EXCEPT !.haserr = TRUE, !.reason = reason]
 
@@ -108,7 +110,7 @@ ReplyEv(v, ch, k, caps, code) ==
     [] OTHER -> [ev |-> "reply",
                  code |-> IF ch.c = "ok" THEN code ELSE CodeOf(ch.c, k),
                  cls  |-> ch.c,
-                 esc  |-> IF ch.c \in {"t4", "p5"} /\ ch.sh = "lead" THEN EscOf(ch.c, k) ELSE "",
+                 esc  |-> IF ch.c \in {"t4", "p5"} /\ ch.sh \in {"lead", "multi"} THEN EscOf(ch.c, k) ELSE "",
                  caps |-> caps]
 
 (* debug log records (only when the scenario switches debug logging on):   *)
@@ -206,10 +208,10 @@ Reveals(mch, j) == (mch \in {"PLAIN", "XOAUTH2"} /\ j = 0) \/ (mch = "LOGIN" /\ 
 Cfgs ==
   {[op |-> OP, nr |-> nr, enc8 |-> e8, rf |-> rf, caps |-> cs, dsn |-> d, nonoop |-> nn, cs |-> rot,
     policy |-> pol, authtype |-> at, noenc |-> NoEncType(at), hostkind |-> hk, logauth |-> la,
-    debug |-> (at # "NOAUTH"), logger |-> lg, fallback |-> fb, starttls |-> st, authlist |-> al, hs |-> hs, caps2 |-> c2, redial |-> rd, latedebug |-> ld] :
-     nr \in [1..N -> 1..MAXR], e8 \in [1..N -> ENC8], rf \in [1..N -> {"ok"} \cup RENDERKINDS],
+    debug |-> (at # "NOAUTH"), logger |-> lg, fallback |-> fb, starttls |-> st, authlist |-> al, hs |-> hs, caps2 |-> c2, redial |-> rd, latedebug |-> ld, variant |-> va] :
+     nr \in [1..N -> MINR..MAXR], e8 \in [1..N -> ENC8], rf \in [1..N -> {"ok"} \cup RENDERKINDS],
      cs \in CAPSETS, d \in DSNS, nn \in NONOOP, rot \in CODESETS, pol \in POLICIES, at \in AUTHTYPES,
-     hk \in HOSTKINDS, la \in LOGAUTH, st \in STARTTLSADV, al \in AUTHLISTS, hs \in HANDSHAKES, c2 \in CAPS2, lg \in LOGGERS, fb \in FALLBACK, rd \in REDIAL, ld \in LATEDEBUG}
+     hk \in HOSTKINDS, la \in LOGAUTH, st \in STARTTLSADV, al \in AUTHLISTS, hs \in HANDSHAKES, c2 \in CAPS2, lg \in LOGGERS, fb \in FALLBACK, rd \in REDIAL, ld \in LATEDEBUG, va \in VARIANTS}
 
 (* what the server puts into an EHLO reply *)
 Advertised(enc) ==
@@ -339,7 +341,7 @@ CmdHelo ==
 PolicyDecision ==
   /\ cl.pc = "policy"
   /\ UNCHANGED <<env, cfg>>
-  /\ CASE cfg.policy \in {"none", "implicit"} \/ Raw -> Goto("authSel") /\ obs' = obs   \* useSSL: no STARTTLS
+  /\ CASE cfg.policy \in {"none", "implicit"} \/ Raw \/ cfg.variant = "sslflag" -> Goto("authSel") /\ obs' = obs   \* useSSL: no STARTTLS
        [] cfg.policy = "mandatory" /\ "STARTTLS" \notin cl.ext ->
               obs' = DialFail(obs) /\ cl' = [cl EXCEPT !.pc = "dialRet", !.top = "dial", !.dead = TRUE]
        [] cfg.policy = "opportunistic" /\ "STARTTLS" \notin cl.ext -> Goto("authSel") /\ obs' = obs
@@ -508,6 +510,8 @@ MsgStart ==
   /\ cl.pc = "msgStart"
   /\ UNCHANGED <<env, cfg, obs>>
   /\ IF cl.m > N THEN Goto("sendRet")
+     ELSE IF cfg.nr[cl.m] = 0                       \* no recipients: refused before anything is sent
+          THEN cl' = [cl EXCEPT !.se[cl.m] = LocalErr("getrcpts"), !.m = @ + 1]
      ELSE IF cfg.enc8[cl.m] /\ "8BITMIME" \notin cl.ext
           THEN cl' = [cl EXCEPT !.se[cl.m] = LocalErr("noenc"), !.m = @ + 1]
           ELSE Goto("mail")
